@@ -13,6 +13,7 @@ import (
 	"fmt"
 	"os"
 	"path/filepath"
+	"regexp"
 	"sort"
 	"strings"
 
@@ -71,6 +72,24 @@ func main() {
 				die("%v", err)
 			}
 			overlay[path] = dst
+			if pkg == "cmd/collector" {
+				// The standalone collector is package main and cannot be imported: the same
+				// instrumented source is also offered as an importable virtual package, with nothing
+				// changed but the package clause.
+				re := regexp.MustCompile(`(?m)^package main\b`)
+				if !re.Match(res.Src) {
+					die("cmd/collector/%s: no package main clause", name)
+				}
+				alt := re.ReplaceAll(res.Src, []byte("package cmdcollector"))
+				adst := filepath.Join(*out, "src", "pkg", "verifsim", "cmdcollector", name)
+				if err := os.MkdirAll(filepath.Dir(adst), 0o755); err != nil {
+					die("%v", err)
+				}
+				if err := os.WriteFile(adst, alt, 0o644); err != nil {
+					die("%v", err)
+				}
+				overlay[filepath.Join(*repo, "pkg", "verifsim", "cmdcollector", name)] = adst
+			}
 			unsim = append(unsim, res.Unsim...)
 			syncRet = append(syncRet, res.SyncReturn...)
 			total.Steps += res.Steps
